@@ -235,3 +235,21 @@ pub fn replay_c03(case: &Value) -> Verdict {
     let c: EvoCase = serde_json::from_value(case.clone()).expect("replay case");
     check_c03(&c, &mut Acc::new(), false)
 }
+
+/// writer / reader types and the encoding of an evolution case (shared with C07 / C08, which add a suffix or cut the
+/// encoding); None when the case is outside the quantifier
+pub fn materialize_evo(c: &EvoCase) -> Option<(Ty, Ty, Vec<u8>, Result<Val, ReadErr>, usize)> {
+    let versions = case_versions(c);
+    if c.w >= versions.len() || c.r >= versions.len() {
+        return None;
+    }
+    if unframed_removal(&versions, c.w, c.r) {
+        return None;
+    }
+    let tw = wrap(c.placement, Ty::Adt(struct_decl(&case_decl_name(c, c.w), &versions[c.w])));
+    let tr = wrap(c.placement, Ty::Adt(struct_decl(&case_decl_name(c, c.r), &versions[c.r])));
+    let mut classes = Vec::new();
+    let expected = expected_wrapped(c.placement, &versions, c.w, c.r, &c.val, &mut classes).map(|e| vmodel::with_transient_defaults(&tr, &e));
+    let bytes = vcat::encode(&tw, &c.val).0.ok()?;
+    Some((tw, tr, bytes, expected, versions[c.w].steps.len()))
+}
